@@ -182,6 +182,7 @@ class PathRun:
             return
         t0 = time.time()
         r = z3.unknown
+        status_before, model_before = ob.status, ob.model
         for sv in (self.st.solver, self.st.solver2):
             sv.push()
             sv.add(z3.Not(cond))
@@ -201,6 +202,9 @@ class PathRun:
             sv.pop()
             if r != z3.unknown:
                 break
+        if r == z3.unknown and self._skolem_stage(cond) == z3.unsat:
+            r = z3.unsat
+            ob.status, ob.model = status_before, model_before
         dt = time.time() - t0
         ob.time += dt
         self.ex.solver_time += dt
@@ -208,6 +212,60 @@ class PathRun:
         if r != z3.unsat:
             raise _PathEnd('obligation not proved: ' + name)
         self.st.assume(cond)
+
+    def _skolem_stage(self, cond: Any) -> Any:
+        """Third attempt for a universally quantified goal: prove its body
+        for fresh constants, with every assumed integer-quantified fact
+        instantiated at those constants (explicit instances instead of
+        relying on E-matching to find them).  Sound: a body proved for
+        arbitrary constants is the quantified goal, and instances of
+        assumed facts are consequences of them."""
+        goal, pre = cond, []
+        if z3.is_or(goal):
+            qs = [c for c in goal.children() if z3.is_quantifier(c)
+                  and c.is_forall()]
+            if len(qs) != 1:
+                return z3.unknown
+            pre = [z3.Not(c) for c in goal.children() if not c.eq(qs[0])]
+            goal = qs[0]
+        if not (z3.is_quantifier(goal) and goal.is_forall()):
+            return z3.unknown
+        nv = goal.num_vars()
+        if any(goal.var_sort(i) != z3.IntSort() for i in range(nv)):
+            return z3.unknown
+        sk = [z3.Int(self.S.fresh_name('sk_' + goal.var_name(i)))
+              for i in range(nv)]
+        body = z3.substitute_vars(goal.body(), *reversed(sk))
+        insts = []
+
+        def visit(f: Any, depth: int) -> None:
+            if z3.is_quantifier(f) and f.is_forall():
+                m = f.num_vars()
+                if m > 2 or any(
+                    f.var_sort(i) != z3.IntSort() for i in range(m)
+                ):
+                    return
+                import itertools
+                for tup in itertools.product(sk, repeat=m):
+                    insts.append(z3.substitute_vars(f.body(), *reversed(tup)))
+            elif z3.is_and(f) and depth < 2:
+                for ch in f.children():
+                    visit(ch, depth + 1)
+        for f in self.st.facts:
+            visit(f, 0)
+        r = z3.unknown
+        for sv in (self.st.solver, self.st.solver2):
+            sv.push()
+            for c in pre:
+                sv.add(c)
+            for c in insts:
+                sv.add(c)
+            sv.add(z3.Not(body))
+            r = sv.check()
+            sv.pop()
+            if r == z3.unsat:
+                return r
+        return z3.unknown
 
     def _model_text(self, m: Any) -> str:
         items = []
@@ -282,6 +340,10 @@ class PathRun:
                 self.implicit(s.is_some(base.t), 'AttributeError', node)
                 base = V(s.v(base.t), base.ty.inner)
             if isinstance(base, V) and isinstance(base.ty, TRef):
+                if self.p.field_owner(base.ty.cls, node.attr) is None:
+                    alias = self.getter_alias(base.ty.cls, node.attr)
+                    if alias is not None:
+                        return LV('field', base, alias)
                 return LV('field', base, node.attr)
             if isinstance(base, V) and isinstance(base.ty, TOpaque):
                 return LV('ofield', base, node.attr)
@@ -352,6 +414,25 @@ class PathRun:
         raise Unsupported('lv_write ' + lv.kind)
 
     _mutating = False
+
+    def getter_alias(self, cls: str, name: str) -> str | None:
+        """`obj.name[i] = v` where `name` is a property whose getter is just
+        `return self.<field>`: the store goes to that field."""
+        fm = self.p.find_method(cls, name)
+        if fm is None:
+            return None
+        _, m = fm
+        if not any(isinstance(d, ast.Name) and d.id == 'property'
+                   for d in m.decorator_list):
+            return None
+        body = [b for b in m.body if not (
+            isinstance(b, ast.Expr) and isinstance(b.value, ast.Constant))]
+        if len(body) == 1 and isinstance(body[0], ast.Return) and isinstance(
+            body[0].value, ast.Attribute,
+        ) and isinstance(body[0].value.value, ast.Name) \
+                and body[0].value.value.id == 'self':
+            return body[0].value.attr
+        return None
 
     def find_setter(self, cls: str, name: str) -> Any:
         for c in self.p.mro(cls):
@@ -442,6 +523,12 @@ class PathRun:
             return self.subscript_read(
                 self.view_any(cont, ANY_LIST, node), idx, node,
             )
+        if isinstance(ty, TRef):
+            from pyvc.calls import opaque_or_method
+            for cn in self.p.mro(ty.cls):
+                if '%s.__getitem__' % cn in self.p.contracts:
+                    return opaque_or_method(
+                        self, cont, '__getitem__', [idx], {}, node)
         raise Unsupported('subscript of %s' % ty)
 
     def subscript_store(self, cont: Any, idx: Any, val: Any) -> V:
@@ -636,6 +723,16 @@ class PathRun:
             return self.p.globals[n.id]
         if n.id in ('True', 'False'):
             return V(z3.BoolVal(n.id == 'True'), TBool)
+        if self.spec_mode:
+            # a local the contract declares but this path has not bound
+            # (assigned on another branch): an arbitrary value of its type
+            c = self.p.contracts.get(fr.func)
+            if c is not None and n.id in c.locals:
+                cache = self.__dict__.setdefault('_unbound_locals', {})
+                if n.id not in cache:
+                    cache[n.id] = self.ex.fresh(
+                        'unbound_' + n.id, self.p.tenv.parse(c.locals[n.id]))
+                return cache[n.id]
         return PyOpaque(n.id)
 
     def e_Attribute(self, n: ast.Attribute) -> Any:
@@ -1035,6 +1132,14 @@ class PathRun:
                 and all(i == v.ty.items[0] for i in v.ty.items):
             items = [self.ex.tup_get(v, i) for i in range(len(v.ty.items))]
             return self.ex.list_lit(items, v.ty.items[0])
+        if isinstance(v, V) and isinstance(v.ty, TRef):
+            for cn in self.p.mro(v.ty.cls):
+                view = getattr(self.p.classes[cn], 'iterview', None)
+                if view:
+                    self.ex.used_assumed.add(
+                        'iterating a %s walks its ghost field %r (the '
+                        'operations in iteration order)' % (cn, view))
+                    return self.unalias(self.ex.read_field(st, v, view))
         raise Unsupported('iteration over %r' % (v,))
 
     def enumeration(self, c: V, what: str) -> V:
